@@ -80,7 +80,19 @@ func (Authorization) Check(t *explore.Transition) ([]V, bool) {
 	bad := func(rule, text string) {
 		out = append(out, V{Signature: fmt.Sprintf("%s|%s", rule, ty), Detail: fmt.Sprintf("tx %q (code %d) signed for %s: %s", r.T.Name, r.Resp.Code, inf.Sender.String(), text)})
 	}
-	auth := map[string]bool{inf.Sender.String(): true}
+	// who authorised the bytes: recovered here from the signed hash and the signature values,
+	// not taken from Transaction.Sender() (a cache or shortcut there is exactly what could break)
+	auth := map[string]bool{}
+	if inf.Tx.SignatureType == transaction.SigTypeSingle {
+		if a, ok := independentSigner(inf.Tx); ok {
+			auth[a.String()] = true
+		}
+		if r.Resp.Code == 0 && !auth[inf.Sender.String()] {
+			bad("accepted-with-foreign-signature", fmt.Sprintf("the node treats %s as the sender, the signature over this body recovers to %v", inf.Sender.String(), auth))
+		}
+	} else {
+		auth[inf.Sender.String()] = true
+	}
 	if inf.Type == transaction.TypeRedeemCheck {
 		auth[inf.Payer.String()] = true
 	}
